@@ -40,12 +40,14 @@ mod hashbrown;
 const LEN_GUARD: i64 = 10_000;
 const CAP_GUARD: i64 = 10_000;
 
+// Lengths and capacities are read from debugee memory and may contain any garbage
+// (uninitialized or corrupted collections), including values with the sign bit set.
 fn guard_len(len: i64) -> i64 {
-    if len > LEN_GUARD { LEN_GUARD } else { len }
+    len.clamp(0, LEN_GUARD)
 }
 
 fn guard_cap(cap: i64) -> i64 {
-    if cap > CAP_GUARD { CAP_GUARD } else { cap }
+    cap.clamp(0, CAP_GUARD)
 }
 
 #[derive(Clone, PartialEq)]
@@ -748,6 +750,8 @@ impl<'a> VariableParserExtension<'a> {
             guard_cap(extract_capacity(pcx, &val)? as i64) as usize
         };
         let head = val.assume_field_as_scalar_number("head")? as usize;
+        // a ring buffer can't contain more elements than its capacity
+        let len = len.min(cap);
 
         let wrapped_start = if cap == 0 { 0 } else { head % cap };
         let head_len = cap - wrapped_start;
